@@ -85,8 +85,8 @@ class UnsignedPair
             return m_index2 < rhs.m_index2;
         }
     private:
-        unsigned short m_index1;
-        unsigned short m_index2;
+        unsigned int m_index1;
+        unsigned int m_index2;
 };
 typedef std::set<UnsignedPair> UnsignedPairSet;
 
